@@ -13,7 +13,7 @@ import (
 )
 
 var repoPkgPatterns = []string{
-	"./lisp", "./lisp/lisplib/...", "./parser/...", "./formatter", "./minifier", "./analysis", "./lint",
+	"./lisp", "./lisp/lisplib/...", "./parser/...", "./formatter", "./minifier", "./analysis", "./lint", "./cmd",
 }
 
 func goEnv() []string {
